@@ -2608,6 +2608,11 @@ class SFTPHandler(SSHPacketLogger):
             await self._cleanup(None)
         except (OSError, Error) as exc:
             await self._cleanup(exc)
+        except Exception as exc: # pylint: disable=broad-except
+            # The connection can be closed with an exception of any
+            # class (such as one raised by an application callback);
+            # outstanding requests must still be failed, not left hanging
+            await self._cleanup(exc)
 
 
 class SFTPClientHandler(SFTPHandler):
